@@ -180,12 +180,32 @@ class HistoryShadow:
 
 def limiter_monitor(ss, viol, probes, tol, after_event=False):
     """One-hot flags, comparison consistency (away from the boundary), anti-windup clamp, limited block outputs."""
-    from andes.core.discrete import AntiWindup, DeadBand, Limiter, SortedLimiter
+    from andes.core.discrete import AntiWindup, DeadBand, Limiter, RateLimiter, SortedLimiter
     tau = lambda lim: 50 * tol * (1 + np.abs(lim)) + 1e-6   # noqa
     for mdl in ss.exist.pflow_tds.values():
         if not mdl.n:
             continue
         for name, d in mdl.discrete.items():
+            if isinstance(d, RateLimiter) and d.enable and not after_event:
+                # rate limits act on the value of the differential equation: after the limiter has been applied the value
+                # lies inside [rate_lower, rate_upper] wherever that side is enabled
+                e = np.asarray(d.u.e, float)
+                if e.shape == (mdl.n,):
+                    probes['rate_limit_checked'] = probes.get('rate_limit_checked', 0) + 1
+                    for side, no, lim, cond in (('upper', d.rate_no_upper, d.rate_upper, d.rate_upper_cond),
+                                                ('lower', d.rate_no_lower, d.rate_lower, d.rate_lower_cond)):
+                        if no:
+                            continue
+                        lv = np.broadcast_to(np.asarray(lim.v, float), (mdl.n,))
+                        cv = np.broadcast_to(np.asarray(cond.v, float), (mdl.n,)) if cond is not None else np.ones(mdl.n)
+                        bad = (cv != 0) & ((e > lv + 1e-9) if side == 'upper' else (e < lv - 1e-9))
+                        if np.any(cv != 0) and np.any(np.isclose(e, lv) & (cv != 0)):
+                            probes['rate_limit_bound'] = probes.get('rate_limit_bound', 0) + 1
+                        if np.any(bad):
+                            j = int(np.where(bad)[0][0])
+                            viol.append(V('rate_clamp', '%s.%s: the limited rate of device %d is %g, %s rate limit %g at t=%.5f' %
+                                          (mdl.class_name, name, j, e[j], side, lv[j], float(ss.dae.t)), side=side, kind=type(d).__name__))
+                            return
             if not isinstance(d, Limiter) or not d.enable:
                 continue
             if isinstance(d, DeadBand) and not d.enable:
